@@ -4,13 +4,13 @@ Import ListNotations.
 Local Open Scope Z_scope.
 
 (* C08: nxpcrypto key convert -e RAW followed by reading the file back (reconstruct_key) returns the same key for
-   every P-256 / P-384 public point and private scalar. *)
+   every public point and every private scalar of P-256, P-384 and P-521 (66-byte numbers for P-521). *)
 Theorem cli_raw_roundtrip :
-  (forall x y cv c ks b pem rv, curve_ok cv c ks -> cv = 0 \/ cv = 1 ->
+  (forall x y cv c ks b pem rv, curve_ok cv c ks ->
      0 <= x < curve_p ks -> 0 <= y < curve_p ks -> on_curve ks x y = true ->
      cli_convert_raw_pub x y ks = Ok b -> pem_like b = false ->
      cli_reconstruct b (pub_parse b pem None rv) = Ok (CPub (KEcc cv x y))) /\
-  (forall d cv c ks pem rv, curve_ok cv c ks -> cv = 0 \/ cv = 1 -> 1 <= d < curve_n ks ->
+  (forall d cv c ks pem rv, curve_ok cv c ks -> 1 <= d < curve_n ks ->
      exists b, cli_convert_raw_prv d ks = Ok b /\
                (pem_like b = false -> cli_reconstruct b (pub_parse b pem None rv) = Ok (CPrv cv d))).
 Proof. exact (conj cli_raw_pub_roundtrip_lemma cli_raw_prv_roundtrip_lemma). Qed.
